@@ -452,6 +452,7 @@ func (c *wsConn) handleChanClose(frame frame) {
 
 	c.chanHandlersLk.Unlock()
 
+	verifYield("chan.close", c)
 	hnd.cb(nil, false)
 }
 
